@@ -16,7 +16,25 @@ var LibLoader = packagelib.Loader{
 	Name: "math",
 }
 
+type randKeyType struct{}
+
+var randKey = rt.AsValue(randKeyType{})
+
+// Each runtime has its own random generator, kept in its registry.
+func getRand(r *rt.Runtime) *rand.Rand {
+	return r.Registry(randKey).Interface().(*rand.Rand)
+}
+
+func newSeed() (seed int64, err error) {
+	// We need something as random as possible to make a seed.
+	err = binary.Read(crypto.Reader, binary.LittleEndian, &seed)
+	return
+}
+
 func load(r *rt.Runtime) (rt.Value, func()) {
+	seed, _ := newSeed()
+	r.SetRegistry(randKey, rt.AsValue(rand.New(rand.NewSource(seed))))
+
 	pkg := rt.NewTable()
 	r.SetEnv(pkg, "huge", rt.FloatValue(math.Inf(1)))
 	r.SetEnv(pkg, "maxinteger", rt.IntValue(math.MaxInt64))
@@ -320,12 +338,12 @@ func rad(t *rt.Thread, c *rt.GoCont) (rt.Cont, error) {
 	return c.PushingNext1(t.Runtime, y), nil
 }
 
-// TODO: have a per runtime random generator
 func random(t *rt.Thread, c *rt.GoCont) (rt.Cont, error) {
 	var (
-		err error
-		m   int64 = 1
-		n   int64
+		err  error
+		m    int64 = 1
+		n    int64
+		rand = getRand(t.Runtime)
 	)
 	switch c.NArgs() {
 	case 0:
@@ -372,8 +390,8 @@ func randomseed(t *rt.Thread, c *rt.GoCont) (rt.Cont, error) {
 	)
 	switch c.NArgs() {
 	case 0:
-		// We need something as random as possible to make a seed.
-		readErr := binary.Read(crypto.Reader, binary.LittleEndian, &seed)
+		var readErr error
+		seed, readErr = newSeed()
 		if readErr != nil {
 			return nil, errors.New("unable to get random seed")
 		}
@@ -394,7 +412,7 @@ func randomseed(t *rt.Thread, c *rt.GoCont) (rt.Cont, error) {
 		// In Go the seed is only 64 bits so we mangle the seeds
 		seed ^= seed2
 	}
-	rand.Seed(seed)
+	getRand(t.Runtime).Seed(seed)
 	return c.PushingNext(t.Runtime, rt.IntValue(seed), rt.IntValue(0)), nil
 }
 
